@@ -137,6 +137,8 @@ func genName(t *rapid.T, label string) string {
 		rapid.StringMatching(`[A-Z][a-zA-Z0-9_]{4,12}`),
 		rapid.StringMatching(`[\p{Lu}\p{Ll}]{1,8}`),
 		rapid.SampledFrom([]string{"joinchat", "JoinChat", "a", "AAAAAEkk2WdoDrB4-Q8-gg", "ÀÉÎ", "İstanbul", "ǅ", "ẞ"}),
+		// names that look like the syntax a router might use internally for its patterns
+		rapid.SampledFrom([]string{"{username}", "{token}", "{x}", "{}", ":username", "*", "{username", "username}", "{Username}", "<username>", "$1", ".*", "[a-z]+"}),
 	).Draw(t, label)
 }
 
